@@ -9,14 +9,14 @@ pub mod error {
     pub fn unimp<T>(msg: &'static str) -> (r: Result<T, super::brush_core::Error>) ensures r is Err { unimplemented!() }
 }
 #[verifier::external_body] pub struct JobTask { _p: u8 }
-pub struct ExecutionResult { pub ok: bool }
-impl ExecutionResult { pub fn success() -> (r: Self) { Self { ok: true } } }
+pub struct ExecutionResult { pub ok: bool, pub normal_flow: bool }      // projection: success, and "no exit / return / break request pending"
+impl ExecutionResult { pub fn success() -> (r: Self) ensures r.normal_flow { Self { ok: true, normal_flow: true } } }
 pub enum ExecutionExitCode { GeneralError }                                   // projection (variant checked)
 impl vstd::std_specs::convert::FromSpecImpl<ExecutionExitCode> for ExecutionResult {
     open spec fn obeys_from_spec() -> bool { false }
-    open spec fn from_spec(c: ExecutionExitCode) -> Self { arbitrary() }
+    open spec fn from_spec(c: ExecutionExitCode) -> Self { arbitrary() }     // (results.rs: a plain status, no control flow: stated on the impl)
 }
-impl From<ExecutionExitCode> for ExecutionResult { #[verifier::external_body] fn from(c: ExecutionExitCode) -> Self { unimplemented!() } }
+impl From<ExecutionExitCode> for ExecutionResult { #[verifier::external_body] fn from(c: ExecutionExitCode) -> (r: Self) ensures r.normal_flow { unimplemented!() } }
 pub struct RuntimeOptionsP { pub enable_job_control: bool }
 pub struct JobManager { pub jobs: Vec<Job>, pub all_waited: Ghost<nat> }       // the real struct's one public field (checked) + ghost: how often wait_all ran
 pub struct Shell { pub jobs: JobManager, pub options: RuntimeOptionsP }        // projection
